@@ -100,6 +100,9 @@ pub struct CmpVT {
     /// the trait-level comparison functions (Quantity::eq / HasRefUnit::eq ..)
     pub trait_eq: fn(Q, Q) -> bool,
     pub trait_partial_cmp: fn(Q, Q) -> Option<Ordering>,
+    /// one value compared with itself *in place* (both operands are the same
+    /// object): (==, !=, trait eq, partial_cmp)
+    pub same_place: fn(Q) -> (bool, bool, bool, Option<Ordering>),
 }
 
 pub struct RefVT {
@@ -171,7 +174,8 @@ pub struct DynOp {
     pub a: usize,
     pub b: usize,
     pub r: usize,
-    /// form: 0 owned, 1 &lhs, 2 &rhs, 3 both borrowed
+    /// form: 0 owned, 1 &lhs, 2 &rhs, 3 both borrowed, 4 (products of a
+    /// type with itself) `&x * &x` with both operands the same object
     pub run: fn(u8, Q, Q) -> Q,
 }
 
@@ -257,6 +261,12 @@ macro_rules! __dyn_cmp {
             partial_cmp: |a, b| PartialOrd::partial_cmp(&mk::<$T>(a), &mk::<$T>(b)),
             trait_eq: |a, b| <$T as $Tr>::eq(&mk::<$T>(a), &mk::<$T>(b)),
             trait_partial_cmp: |a, b| <$T as $Tr>::partial_cmp(&mk::<$T>(a), &mk::<$T>(b)),
+            #[allow(clippy::eq_op)]
+            same_place: |a| {
+                let x = mk::<$T>(a);
+                let r = &x;
+                (r == r, r != r, <$T as $Tr>::eq(r, r), PartialOrd::partial_cmp(r, r))
+            },
         })
     };
 }
@@ -459,6 +469,15 @@ macro_rules! dyn_mul_op {
                     0 => x * y,
                     1 => &x * y,
                     2 => x * &y,
+                    // both operands are the same object (squares only; the
+                    // second operand is ignored)
+                    4 => {
+                        let any: &dyn core::any::Any = &x;
+                        match any.downcast_ref::<$B>() {
+                            Some(xb) => &x * xb,
+                            None => &x * &y,
+                        }
+                    }
                     _ => &x * &y,
                 };
                 un::<$R>(r)
